@@ -11,11 +11,11 @@ import (
 
 func init() {
 	register(&propInfo{
-		ID: "C09",
+		ID:          "C09",
 		Explanation: "Path analysis of the server's reply-producing code: (R09.1) the response encoder inserts \"jsonrpc\" and \"id\" on every path and exactly one of \"error\" (iff the error field is non-nil) and \"result\"; (R09.2) every response literal carries the constant version \"2.0\" and an id read from the request being answered; (R09.3) in the dispatcher every path of an id-bearing request emits at least one reply and no reply is ever followed by another one (a successful channel registration counts as the reply; the notification return after the user call emits none); (R09.4) no error reply is followed by the user call (dispatcher) or by dispatching the same request (reader); (R09.5) the protocol error codes at the method-lookup failure, arity mismatch, empty request/batch and envelope-decode failure sites are -32601, -32602, -32600 and -32700; (R09.6) batch framing: the array brackets and separators are produced by one framing provider that writes '[' for the first and ',' for every later element that actually produces output, every emitter inside the batch loop is given that provider, the closing bracket is written exactly when something was emitted, and the loop never aborts the array; (R09.7) over WebSocket a request without id is given a discarding, non-nil writer and an id-bearing one the locked message writer.",
-		NotDecided: "HTTP status codes, arbitrary body bytes and value encodings (encoding/json), a notification that fails before the user call still being answered with an id:null error (existing behaviour, outside the decided clauses).",
+		NotDecided:  "HTTP status codes, arbitrary body bytes and value encodings (encoding/json), a notification that fails before the user call still being answered with an id:null error (existing behaviour, outside the decided clauses).",
 		Assumptions: []string{"reply emitters are: calls of a value of the error-reply function type, the lazy-writer helper, and the channel registrar"},
-		Run: runC09,
+		Run:         runC09,
 	})
 }
 
@@ -413,28 +413,28 @@ func (c *Ctx) idFromRequest(v ssa.Value, depth int) (bool, string) {
 func (c *Ctx) readerEntry() *ssa.Function {
 	p, r := c.P, c.R
 	var rd *ssa.Function
+	best := 1 << 30
 	for _, fn := range p.Funcs {
 		if pkgOf(fn) != p.Root.Pkg || fn.Parent() != nil {
 			continue
 		}
+		reg := c.region(fn)
 		hasLim, hasDisp := false, false
-		allInstrs(fn, func(in ssa.Instruction) {
-			if ci, ok := in.(*ssa.Call); ok && calleeName(ci) == "io.LimitReader" {
-				hasLim = true
-			}
-		})
-		if !hasLim {
-			continue
-		}
-		for _, g := range c.region(fn) {
+		for _, g := range reg {
 			allInstrsRaw(g, func(in ssa.Instruction) {
-				if ci, ok := in.(*ssa.Call); ok && p.unbound(staticCallee(ci)) == r.FnDisp {
-					hasDisp = true
+				if ci, ok := in.(*ssa.Call); ok {
+					if calleeName(ci) == "io.LimitReader" {
+						hasLim = true
+					}
+					if p.unbound(staticCallee(ci)) == r.FnDisp {
+						hasDisp = true
+					}
 				}
 			})
 		}
-		if hasDisp {
-			rd = fn
+		// the innermost function that both reads the limited body and dispatches
+		if hasLim && hasDisp && len(reg) < best {
+			rd, best = fn, len(reg)
 		}
 	}
 	return rd
@@ -701,7 +701,7 @@ func (c *Ctx) readerRules() {
 				return ok && k == flag && in.Parent() != prov
 			}
 			for _, dsp := range loopDisp {
-				if ret := reachFromUp(dsp, isReturn, flagTest); ret != nil {
+				if ret := reachFromUp(dsp, isEnd, flagTest); ret != nil {
 					okAll = false
 					c.bad(rule, construct, c.ipos(ret), "the batch loop can return without reaching the closing bracket: the array is left unterminated")
 				}
@@ -709,7 +709,7 @@ func (c *Ctx) readerRules() {
 			// error replies inside the loop must not return either
 			regInstrs(func(in ssa.Instruction) {
 				if c.isErrFnCall(in) && inLoopIP(in) {
-					if ret := reachFromUp(in, isReturn, flagTest); ret != nil {
+					if ret := reachFromUp(in, isEnd, flagTest); ret != nil {
 						okAll = false
 						c.bad(rule, construct, c.ipos(ret), "an error element inside the batch aborts the array without the closing bracket")
 					}
@@ -1150,40 +1150,40 @@ func (c *Ctx) registrarRule(rule string) {
 	isReply := func(in ssa.Instruction) bool { return c.isErrFnCall(in) || c.isSuccessEmit(in) }
 	RULE := rule
 	n := 0
-		// channel registrar: success edge must not reach a reply
-		c.P.coneInstrs(d, func(in ssa.Instruction) {
-			if !c.isChanRegistrarCall(in) {
-				return
+	// channel registrar: success edge must not reach a reply
+	c.P.coneInstrs(d, func(in ssa.Instruction) {
+		if !c.isChanRegistrarCall(in) {
+			return
+		}
+		n++
+		call := in.(*ssa.Call)
+		construct := fmt.Sprintf("%s: channel registration", fname(in.Parent()))
+		var okBranch *ssa.BasicBlock
+		for _, ref := range transitiveUses(call) {
+			bo, ok := ref.(*ssa.BinOp)
+			if !ok || (bo.Op != token.EQL && bo.Op != token.NEQ) || !(isNilConst(bo.X) || isNilConst(bo.Y)) {
+				continue
 			}
-			n++
-			call := in.(*ssa.Call)
-			construct := fmt.Sprintf("%s: channel registration", fname(in.Parent()))
-			var okBranch *ssa.BasicBlock
-			for _, ref := range transitiveUses(call) {
-				bo, ok := ref.(*ssa.BinOp)
-				if !ok || (bo.Op != token.EQL && bo.Op != token.NEQ) || !(isNilConst(bo.X) || isNilConst(bo.Y)) {
-					continue
-				}
-				for _, r2 := range *bo.Referrers() {
-					if iff, ok := r2.(*ssa.If); ok {
-						if bo.Op == token.EQL {
-							okBranch = iff.Block().Succs[0]
-						} else {
-							okBranch = iff.Block().Succs[1]
-						}
+			for _, r2 := range *bo.Referrers() {
+				if iff, ok := r2.(*ssa.If); ok {
+					if bo.Op == token.EQL {
+						okBranch = iff.Block().Succs[0]
+					} else {
+						okBranch = iff.Block().Succs[1]
 					}
 				}
 			}
-			if okBranch == nil {
-				c.bad(RULE, construct, c.ipos(call), "the registrar's error is not tested: a channel result is announced by the forwarder and answered again here")
-				return
-			}
-			if w := reachFromBlockUp(okBranch, isReply, nil); w != nil {
-				c.bad(RULE, construct, c.ipos(w), "after a successful channel registration (the forwarder sends the response) a second reply is emitted")
-			} else {
-				c.ok(RULE, construct, c.ipos(call), "success path returns without another reply")
-			}
-		})
+		}
+		if okBranch == nil {
+			c.bad(RULE, construct, c.ipos(call), "the registrar's error is not tested: a channel result is announced by the forwarder and answered again here")
+			return
+		}
+		if w := reachFromBlockUp(okBranch, isReply, nil); w != nil {
+			c.bad(RULE, construct, c.ipos(w), "after a successful channel registration (the forwarder sends the response) a second reply is emitted")
+		} else {
+			c.ok(RULE, construct, c.ipos(call), "success path returns without another reply")
+		}
+	})
 	if n == 0 {
 		c.bad(rule, fmt.Sprintf("%s: channel registration", fname(d)), c.P.pos(d.Pos()), "channel results are no longer handed to the forwarding goroutine")
 	}
